@@ -72,9 +72,19 @@ static const char *ename(int e)
     case EDOM: return "EDOM";
     case EINVAL: return "EINVAL";
     case ENOMEM: return "ENOMEM";
-    case ENOENT: return "ENOENT";
     default: return "OTHER";
     }
+}
+
+/*
+ * The harness never clears errno before a library call.  On the contrary it plants a stale value:
+ * alternately EDOM (what an earlier failed solve leaves behind) and ENOENT (so that a failure that
+ * forgets to set errno is still visible as "OTHER").
+ */
+static int stale_errno(void)
+{
+    static unsigned n;
+    return (n++ & 1) ? ENOENT : EDOM;
 }
 
 static vnacal_t *vcp;
@@ -277,7 +287,7 @@ int main(void)
 		for (int f = 0; f < cur_f; ++f) mv[i][f] = v;
 		m[i] = mv[i];
 	    }
-	    errno = 0;
+	    errno = stale_errno();	/* never cleared for the library: a stale value must not matter */
 	    verif_alloc_track(1);
 	    live0 = verif_live_blocks();
 	    if (strcmp(kind, "r1") == 0) rc = vnacal_new_add_single_reflect_m(vnp, m, br, bc, sh[0], p1);
@@ -294,7 +304,7 @@ int main(void)
 	    long live0, live1;
 	    uint64_t d0 = state_digest(), c0 = cal_digest();
 	    const vnacal_calibration_t *p0 = vnp->vn_calibration;
-	    errno = 0;
+	    errno = stale_errno();
 	    verif_alloc_track(1);
 	    live0 = verif_live_blocks();
 	    rc = vnacal_new_solve(vnp);
